@@ -358,3 +358,37 @@ fire("c01-permute-inverse-same-index", "C01", B + "utils.py", "        return y[
 fire("c01-triangular-solve-upper", "C01", B + "affine.py",
      "        return solve_triangular(self.triangular, y - self.loc, lower=self.lower)\n\n    def inverse_and_log_det(self, y, condition=None):\n        x = solve_triangular(self.triangular, y - self.loc, lower=self.lower)",
      "        return solve_triangular(self.triangular, y + self.loc, lower=self.lower)\n\n    def inverse_and_log_det(self, y, condition=None):\n        x = solve_triangular(self.triangular, y + self.loc, lower=self.lower)", "C01.pair")
+
+# ---------------------------------------------------------------- more benign refactors
+silent("benign-spline-rename-locals", ALL, B + "rational_quadratic_spline.py", "x_robust", "xr", all=True)
+silent("benign-where-keywords", ALL, B + "tanh.py", "        return jnp.where(is_linear, linear_y, tanh_y)",
+       "        return jnp.where(condition=is_linear, x=linear_y, y=tanh_y)")
+silent("benign-error-message", ALL, B + "bijection.py", "raise ValueError(\"Expected condition to be provided.\")",
+       "raise ValueError(\"A condition is required for conditional bijections.\")")
+silent("benign-chain-map", ALL, B + "concatenate.py",
+       "        return (a.squeeze(axis=self.axis) for a in arrays)", "        return map(lambda a: jnp.squeeze(a, axis=self.axis), arrays)")
+silent("benign-losses-helper", ALL, T + "losses.py",
+       "        dist = unwrap(eqx.combine(params, static))\n        return -dist.log_prob(x, condition).mean()",
+       "        model = eqx.combine(params, static)\n        dist = unwrap(model)\n        lp = dist.log_prob(x, condition)\n        return -jnp.mean(lp)")
+silent("benign-train-utils-names", ALL, T + "train_utils.py",
+       "    n_train = num_samples - round(val_prop * num_samples)\n    arrays = [jr.permutation(key, a) for a in arrays]\n    train_arrays = [arr[:n_train] for arr in arrays]\n    val_arrays = [arr[n_train:] for arr in arrays]\n    return train_arrays, val_arrays",
+       "    cut = num_samples - round(num_samples * val_prop)\n    shuffled = [jr.permutation(key, a) for a in arrays]\n    return [a[:cut] for a in shuffled], [a[cut:] for a in shuffled]")
+silent("benign-bisection-rename", ALL, "flowjax/bisection_search.py", "midpoint", "mid", all=True)
+silent("benign-annotations", ALL, B + "exp.py", "    def transform(self, x, condition=None):\n        return jnp.exp(x)",
+       "    def transform(self, x: Array, condition: Array | None = None) -> Array:\n        return jnp.exp(x)")
+
+# --------------------------------------------------------------------------- C02.deriv
+fire("c02-exp-logdet-consistently-wrong", "C02", B + "exp.py",
+     "        return jnp.exp(x), x.sum()\n\n    def inverse(self, y, condition=None):\n        return jnp.log(y)\n\n    def inverse_and_log_det(self, y, condition=None):\n        x = jnp.log(y)\n        return x, -x.sum()",
+     "        return jnp.exp(x), 2 * x.sum()\n\n    def inverse(self, y, condition=None):\n        return jnp.log(y)\n\n    def inverse_and_log_det(self, y, condition=None):\n        x = jnp.log(y)\n        return x, -2 * x.sum()", "C02.deriv")
+fire("c02-spline-derivative-term", "C02", B + "rational_quadratic_spline.py",
+     "        num = sk**2 * (dk1 * xi**2 + 2 * sk * xi * (1 - xi) + dk * (1 - xi) ** 2)",
+     "        num = sk**2 * (dk1 * xi**2 + sk * xi * (1 - xi) + dk * (1 - xi) ** 2)", "C02.deriv")
+fire("c02-softplus-logdet-sign", "C02", B + "softplus.py",
+     "        return softplus(x), -softplus(-x).sum()", "        return softplus(x), -softplus(x).sum()", "C02.deriv")
+fire("c02-tanh-log-grad-constant", "C02", B + "tanh.py", "    return -2 * (x + softplus(-2 * x) - jnp.log(2.0))", "    return -2 * (x + softplus(-2 * x) - jnp.log(4.0))", "C02.deriv")
+fire("c02-planar-psi-missing-weight", "C02", B + "planar.py", "            psi = (1 - act**2) * self.weight", "            psi = (1 - act**2)", "C02.deriv")
+fire("c02-triangular-logdet-full-matrix", "C02", B + "affine.py",
+     "        return y, jnp.log(jnp.abs(jnp.diag(self.triangular))).sum()", "        return y, jnp.log(jnp.abs(self.triangular)).sum()")
+fire("c02-leaky-linear-logdet", "C02", B + "tanh.py",
+     "            jnp.abs(x) >= self.max_val,\n            jnp.log(self.linear_grad),", "            jnp.abs(x) >= self.max_val,\n            self.linear_grad,", "C02.deriv")
